@@ -2065,12 +2065,30 @@ class Circuit(Unitary, StateVectorMap, Collection[Operation]):
 
         region = region.shift_left(len(idle_cycles))
 
+        # Remove the cycles that only held gates that have been moved
+        emptied_cycles = [
+            cycle_index
+            for cycle_index in range(region.min_cycle, region.max_min_cycle)
+            if self._is_cycle_idle(cycle_index)
+        ]
+        for i, cycle_index in enumerate(emptied_cycles):
+            self.pop_cycle(cycle_index - i)
+
+        if len(emptied_cycles) != 0:
+            region = CircuitRegion({
+                qudit_index: (
+                    bounds[0] - sum(c < bounds[0] for c in emptied_cycles),
+                    bounds[1] - sum(c < bounds[1] for c in emptied_cycles),
+                )
+                for qudit_index, bounds in region.items()
+            })
+
         # Prep output
         region = CircuitRegion({
             qudit_index: (region.min_cycle, region[qudit_index][1])
             for qudit_index in region
         })
-        net_new_cycles = shadow_length - len(idle_cycles)
+        net_new_cycles = shadow_length - len(idle_cycles) - len(emptied_cycles)
         shadow_region = CircuitRegion({
             qudit_index: (shadow_start, shadow_map[qudit_index])
             for qudit_index in shadow_qudits
